@@ -195,6 +195,48 @@ fn judge_sink(out: &crate::world::OutFile, lowercased: bool, earlier_csv: &[Vec<
     }
 }
 
+/// how many of these (acknowledged) responses have no record in the file? None = the file cannot be read at
+/// all (no header left)
+fn count_missing(out: &crate::world::OutFile, lowercased: bool, data: &Option<Vec<u8>>, expected: &[Value]) -> Option<u64> {
+    let text = String::from_utf8_lossy(data.as_ref()?).to_string();
+    let text = if out.preexisting && text.starts_with(PREEXISTING_JSON) { text[PREEXISTING_JSON.len()..].to_string() } else { text };
+    match &out.format {
+        OutFormat::JsonArray => None,
+        OutFormat::Json => {
+            let mut got: BTreeMap<String, usize> = BTreeMap::new();
+            for line in text.lines() {
+                if let Ok(rec) = serde_json::from_str::<Value>(line) {
+                    if rec.get("request").is_some() {
+                        *got.entry(essence(&rec).request).or_insert(0) += 1;
+                    }
+                }
+            }
+            let want = multiset(expected.iter().map(|r| essence(r).request));
+            Some(want.iter().map(|(k, n)| n.saturating_sub(got.get(k).copied().unwrap_or(0)) as u64).sum())
+        }
+        OutFormat::Csv { .. } => {
+            let (mut recs, _) = parse_csv_records(&text);
+            if recs.is_empty() {
+                return if expected.is_empty() { Some(0) } else { None };
+            }
+            let header_cells = recs.remove(0);
+            let header: String = header_cells.iter().map(|c| match c { Cell::Text(t) => t.clone(), Cell::Json(Value::String(t)) => t.clone(), Cell::Json(j) => j.to_string() }).collect::<Vec<_>>().join(",");
+            let cols = csv_columns_from_header(&out.format, &header, lowercased).ok()?;
+            let mut used = vec![false; recs.len()];
+            let mut missing = 0u64;
+            for r in expected {
+                let er = expected_cells(&cols, r).0;
+                let hit = recs.iter().enumerate().position(|(i, ar)| !used[i] && er.len() == ar.len() && er.iter().zip(ar.iter()).all(|(e, c)| cell_matches(e, c, 1e-9)));
+                match hit {
+                    Some(i) => used[i] = true,
+                    None => missing += 1,
+                }
+            }
+            Some(missing)
+        }
+    }
+}
+
 pub fn judge(case: &Case, obs: &Obs) -> (Vec<Violation>, BTreeMap<String, u64>, bool) {
     let mut v: Vec<Violation> = vec![];
     let mut reach: BTreeMap<String, u64> = BTreeMap::new();
@@ -209,7 +251,7 @@ pub fn judge(case: &Case, obs: &Obs) -> (Vec<Violation>, BTreeMap<String, u64>, 
     let persist = case.world.persist && !cli;
     // hard faults on the output side (a write or the open of the output file) and on the input side (a read
     // of the command-line runner's query file)
-    let hard_fired: u64 = obs.stats.faults.iter().filter(|(k, _)| *k == "eio_write" || k.starts_with("enospc") || k.starts_with("eopen")).map(|(_, n)| *n).sum();
+    let hard_fired: u64 = obs.stats.faults.iter().filter(|(k, _)| *k == "eio_write" || k.starts_with("enospc") || k.starts_with("eopen") || *k == "zero_write").map(|(_, n)| *n).sum();
     let hard_read_fired: u64 = obs.stats.faults.get("eio_read").copied().unwrap_or(0);
     if let Some(e) = &obs.build_error {
         v.push(Violation { class: "build-failed".into(), detail: format!("application failed to build: {}", e) });
@@ -313,6 +355,23 @@ pub fn judge(case: &Case, obs: &Obs) -> (Vec<Violation>, BTreeMap<String, u64>, 
         let before = v.len();
         let lowercased = !(case.world.policies_at_run_level || case.world.per_run_sinks.is_some());
         judge_sink(sink, lowercased, &earlier_csv, data, si, &exp_sink, &ret_sink, all_ok, relaxed, hard_fired, any_csv, persist, &mut v, &mut bump);
+        if relaxed && !cli {
+            // run() calls that returned Ok are acknowledged: a failed write before or after them may cut a row, and
+            // the next row is then glued onto the cut one (one damaged line per fault) - but their records are
+            // never removed from the file again
+            let ok_exp: Vec<Value> = expected_by_batch
+                .iter()
+                .enumerate()
+                .filter(|(bi, _)| mask_of(*bi) & (1 << si) != 0 && matches!(obs.runs.get(*bi), Some(Some(Ok(_)))))
+                .flat_map(|(_, e)| e.iter().cloned())
+                .collect();
+            if let Some(missing) = count_missing(sink, lowercased, data, &ok_exp) {
+                bump("acknowledged_records_checked_after_hard_fault", ok_exp.len() as u64);
+                if missing > hard_fired {
+                    v.push(Violation { class: "hard-fault-lost-acknowledged".into(), detail: format!("{} records of run() calls that returned Ok are no longer in the file of sink {} after {} hard fault(s)", missing, si, hard_fired) });
+                }
+            }
+        }
         if hard_read_fired > 0 {
             // a failed read of the query file may cost the row that was being read - one query per fault, never more,
             // and never anything else
@@ -398,6 +457,10 @@ impl Check for C19 {
             }
             c.params = json!({"cli": {"garbage": garbage, "chunksize": chunk, "crlf": r.chance(0.2), "no_final_newline": r.chance(0.3)}});
             c.simcfg.fault_paths = vec!["/sim/out".into(), "/sim/queries".into()];
+            if r.chance(0.3) {
+                // the query file is a FIFO / process substitution: its size reads as 0, it cannot be seeked
+                c.simcfg.pipe_like_paths = vec!["/sim/queries".into()];
+            }
         }
         match family {
             "cli" => {
@@ -425,7 +488,7 @@ impl Check for C19 {
                 c.simcfg.io_fault_rate = *r.pick(&[0.05, 0.2, 0.5]);
             }
             "hard-faults" => {
-                c.simcfg.faults = sim::F_SHORT_WRITE | sim::F_EINTR_WRITE | *r.pick(&[sim::F_EIO_WRITE, sim::F_ENOSPC_WRITE, sim::F_EIO_WRITE, sim::F_ENOSPC_WRITE, sim::F_EOPEN]);
+                c.simcfg.faults = sim::F_SHORT_WRITE | sim::F_EINTR_WRITE | *r.pick(&[sim::F_EIO_WRITE, sim::F_ENOSPC_WRITE, sim::F_EIO_WRITE, sim::F_ENOSPC_WRITE, sim::F_EOPEN, sim::F_ZERO_WRITE]);
                 c.simcfg.io_fault_rate = *r.pick(&[0.05, 0.2]);
                 c.simcfg.max_hard_faults = 1;
             }
